@@ -594,12 +594,15 @@ def run_ops(env: Env, wcomp: Dict[str, Any], ops: List[List[Any]]) -> Dict[str, 
                 except Skip:
                     eng.count("skip:" + op[1])
                     continue
-                # recovery: once the fault is healed every rendering equals a fresh rebuild's
-                try:
-                    eng.compare(ctx)
-                except Violation as v:
-                    raise Violation(PROP, "recovery", v.detail, "recovery-after:" + op[1].split("/")[0])
-                eng.count("probe:recovered-after-heal")
+                # recovery: once the fault is healed every rendering equals a fresh rebuild's.  (Skipped after a
+                # seeded half of the cycles: the comparison evaluates successful database renderings, which can
+                # clear state that a refused rendering left behind before the next fault is probed.)
+                if len(op) < 4 or op[3]:
+                    try:
+                        eng.compare(ctx)
+                    except Violation as v:
+                        raise Violation(PROP, "recovery", v.detail, "recovery-after:" + op[1].split("/")[0])
+                    eng.count("probe:recovered-after-heal")
             else:
                 eng.step(op, idx, False)
     except C10.Abandon:
@@ -649,7 +652,7 @@ def generate(env: Env, rseed: int, thorough: bool):
                         ops.append(op)
                         break
             else:
-                op = ["inject", item[1], g.randrange(1 << 30)]
+                op = ["inject", item[1], g.randrange(1 << 30), g.random() < 0.5]
                 ctx = {"index": len(ops), "op": op}
                 try:
                     eng.cycle(op[1], random.Random(op[2]), ctx)
@@ -658,11 +661,12 @@ def generate(env: Env, rseed: int, thorough: bool):
                     continue
                 ops.append(op)
                 eng.trace.append("inject:rejected")
-                try:
-                    eng.compare(ctx)
-                except Violation as v:
-                    raise Violation(PROP, "recovery", v.detail, "recovery-after:" + op[1].split("/")[0])
-                eng.count("probe:recovered-after-heal")
+                if op[3]:
+                    try:
+                        eng.compare(ctx)
+                    except Violation as v:
+                        raise Violation(PROP, "recovery", v.detail, "recovery-after:" + op[1].split("/")[0])
+                    eng.count("probe:recovered-after-heal")
     except C10.Abandon:
         eng.count("abandoned:unexpected-accept")
     except Violation as v:
